@@ -283,8 +283,11 @@ def check_type(ty: Type[_C], data: object) -> _C:
             data = mapping_dict(data)
             if start_line is not None:
                 setattr(data, "_start_line", start_line)
-            for key in missing:
-                data[key] = None
+            # In the order the fields are declared, not in the order the set yields them: the
+            # fields are checked in this order, and the first problem is the one reported
+            for key in annotations:
+                if key in missing:
+                    data[key] = None
 
         # Check field types
         for key, value in data.items():
